@@ -20,4 +20,8 @@ def run(tier):
                       "quality of the cross-validated bandwidth as an estimator is not decided, only its scale covariance"]
     K.values_part(ck, tier)
     K.covariance_part(ck, tier)
+    # the estimate with a cross-validated bandwidth (also chosen on a sub-sample) on continuous samples: tabulated and judged by PdfTable.tla
+    # (non-negative, cdf non-decreasing from 0 to 1 and equal to the integral of the density, total probability one)
+    from harness import pdftable
+    pdftable.run_part(ck, tier, kinds=("kde_cv", "kde_cv_sub"))
     return ck.finish()
